@@ -804,3 +804,49 @@ Proof.
   - apply inv_data_vector_spec; assumption.
   - apply inv_curvature_spec; assumption.
 Qed.
+
+(* ---------------- histories: the outcome of every step is the pure function of the current contents ---------------- *)
+Lemma t_vis_new pi_ (G : @geom ROps) uv p img : @t_vis ROps (t_new pi_ G uv p) img = @tr_visibilities ROps pi_ G uv p img.
+Proof. unfold t_vis, t_new, tr_visibilities. destruct p; reflexivity. Qed.
+Lemma t_image_new pi_ (G : @geom ROps) uv p vis : @t_image ROps (t_new pi_ G uv p) vis = @tr_image ROps pi_ G uv vis.
+Proof. unfold t_image, t_new, tr_image. destruct p; reflexivity. Qed.
+Lemma t_tmm_new pi_ (G : @geom ROps) uv p P M : @t_tmm ROps (t_new pi_ G uv p) P M = @tr_mapping_matrix ROps pi_ G uv p P M.
+Proof. unfold t_tmm, t_new, tr_mapping_matrix. destruct p; reflexivity. Qed.
+
+(* the store invariant: object i was constructed from description i (with some preload flag), on a well-formed geometry *)
+Definition obj_of (pi_ : R) (t : @tobj ROps) (d : @geom ROps * list (R * R)) : Prop :=
+  @geom_ok ROps (fst d) = true /\ exists p, t = @t_new ROps pi_ (fst d) (snd d) p.
+
+Lemma geom_ok_R (G : @geom ROps) : @geom_ok ROps G = true ->
+  rectn (Wn (g_mask G)) (g_mask G) = true /\ @scales_ok ROps (g_sy G) (g_sx G) = true.
+Proof. unfold geom_ok. intro H. apply andb_true_iff in H. exact H. Qed.
+
+Lemma on_obj_rel {A B} (Rel : A -> B -> Prop) (store : list A) (ds : list B) i f g :
+  Forall2 Rel store ds -> (forall t d, Rel t d -> f t = g d) -> @on_obj ROps A store i f = @on_obj ROps B ds i g.
+Proof.
+  intros HF Hfg. unfold on_obj. revert i. induction HF as [|t d store ds Htd HF IH]; intros [|i]; cbn; auto.
+Qed.
+
+Lemma run_hist_pure pi_ steps : forall store ds, Forall2 (obj_of pi_) store ds -> @hist_geoms_ok ROps steps = true ->
+  @run_hist ROps pi_ store steps = @pure_hist ROps pi_ ds steps.
+Proof.
+  induction steps as [|st steps IH]; intros store ds HF Hok; [reflexivity|].
+  cbn [hist_geoms_ok forallb] in Hok. apply andb_true_iff in Hok. destruct Hok as [Hst Hok].
+  destruct st as [G uv p|i img|i vis|i P M]; cbn [run_hist pure_hist].
+  - destruct (geom_ok_R G Hst) as [Hr Hs]. f_equal.
+    + f_equal. cbn [t_grid t_new]. apply grid_is_centres; assumption.
+    + apply IH; [|exact Hok]. apply Forall2_app; [exact HF|]. constructor; [|constructor]. split; [exact Hst|]. exists p. reflexivity.
+  - f_equal; [|apply IH; assumption].
+    apply (on_obj_rel (obj_of pi_)); [exact HF|]. intros t d [Hg [p ->]]. destruct (geom_ok_R _ Hg) as [Hr Hs].
+    rewrite t_vis_new. f_equal. apply tr_visibilities_spec; assumption.
+  - f_equal; [|apply IH; assumption].
+    apply (on_obj_rel (obj_of pi_)); [exact HF|]. intros t d [Hg [p ->]]. destruct (geom_ok_R _ Hg) as [Hr Hs].
+    rewrite t_image_new. f_equal. apply tr_image_spec; assumption.
+  - f_equal; [|apply IH; assumption].
+    apply (on_obj_rel (obj_of pi_)); [exact HF|]. intros t d [Hg [p ->]]. destruct (geom_ok_R _ Hg) as [Hr Hs].
+    rewrite t_tmm_new. f_equal. apply tr_mapping_matrix_spec; assumption.
+Qed.
+
+Theorem T_history pi_ (steps : list (@hstep ROps)) : @hist_geoms_ok ROps steps = true ->
+  @run_hist ROps pi_ [] steps = @pure_hist ROps pi_ [] steps.
+Proof. intro H. apply run_hist_pure; [constructor|exact H]. Qed.
